@@ -82,8 +82,13 @@ def sites_of(path, rel):
             elif ARITH.search(s) and not SAFE_ARITH.search(s) and not s.startswith("fn ") and "->" not in s \
                     and not s.startswith("pub fn") and not s.startswith("impl") and not s.startswith("where") \
                     and not re.search(r"\b(as|for|in)\b.*\.\.", s) and "'" not in s and "&'" not in s:
-                # only integer-looking contexts: literals or len()/as usize nearby
-                if re.search(r"\d|len\(\)|as usize|as u\d+", s):
+                # every arithmetic operator between operands counts (an earlier version required a digit, `len()`
+                # or an `as` cast on the line and so missed `mss + min_headers`, seeded change C01d-3); the only
+                # thing excluded is a dereference after a keyword (`match *x`, `return *x`)
+                real = [m for m in ARITH.finditer(s)
+                        if not ("*" in m.group(0) and
+                                re.search(r"\b(match|return|if|in|while|else)$", s[:m.start() + 1]))]
+                if real:
                     out.append((rel, fn, "arith:" + norm))
         depth += line.count("{") - line.count("}")
         while fn_stack and depth <= fn_stack[-1][1] and "{" not in line:
